@@ -299,7 +299,7 @@ class FnIndex:
         ty = hdr[i:j].strip()
         return norm_closure_ty(ty)
 
-    def coroutine_body(self, creator, head):
+    def coroutine_body(self, creator, head, names=None):
         if creator is None:
             return None
         base = creator.name
@@ -315,9 +315,13 @@ class FnIndex:
         m = re.match(r'\{coroutine@(.*?)( \(#\d+\))?\}$', head.strip())
         span = m.group(1) if m else None
         if span:
-            for f in kids:
-                if span in f.header:
-                    return f
+            cands = [f for f in kids if span in f.header]
+            if len(cands) > 1 and names:
+                want = set(names)
+                exact = [f for f in cands if set(f.parse().upvar_names.values()) == want]
+                cands = exact or [f for f in cands if set(f.parse().upvar_names.values()) <= want]
+            if cands:
+                return cands[0]
         return None
 
     def resolve(self, pc, argvals=None):
@@ -442,24 +446,28 @@ class Interp:
         m = re.match(r'^\{(alloc\d+)(?:\+0x[0-9a-f]+)?: (.*)\}$', t)
         if m:
             return self.eval_alloc(m.group(1), m.group(2))
-        if t.startswith('<') and '::promoted[' in t:
+        if t.startswith('<') and re.search(r'::(promoted\[\d+\]|[A-Z][A-Z0-9_]*)$', t):
+            # `<T as Trait>::method[::{closure#k}..]::ITEM` - an associated / nested const of a crate function
             pcc = parse_callee(t.rsplit('::', 1)[0])
-            prom = t.rsplit('::', 1)[1]
+            item = t.rsplit('::', 1)[1]
             suffix = ''
-            if pcc['method'].startswith('{closure') and pcc['segs']:
-                # `<T as Trait>::method::{closure#0}::promoted[k]`
+            if pcc['segs']:
                 tail = pcc['segs'][1:] + [pcc['method']]
                 pcc = dict(pcc, method=pcc['segs'][0], segs=[])
                 suffix = '::' + '::'.join(tail)
             fnc = self.index.resolve(pcc)
             if fnc is not None:
-                cf = self.dump.consts.get(fnc.name + suffix + '::' + prom)
+                full = fnc.name + suffix + '::' + item
+                if full in self.dump.const_inline:
+                    return self.eval_const(self.dump.const_inline[full])
+                cf = self.dump.consts.get(full)
                 if cf is not None:
                     key = ('const', cf.name)
                     if key not in self.ctx.const_cache:
                         self.ctx.const_cache[key] = run_to_end(self.call_fn(cf, []))
                     return self.ctx.const_cache[key]
-            raise Unsupported('promoted constant not resolved: ' + t)
+            if 'promoted[' in item or item == 'BRANCHES':
+                raise Unsupported('nested constant not resolved: ' + t)
         so = _select_out(t)
         if so is not None:
             return Enum('SelectOut%d' % so[1], so[0], {so[0]: ()})
@@ -676,6 +684,11 @@ class Interp:
         captures two disjoint fields of one variable (`self.a`, `self.b`) is printed with an operand
         missing.  The captures are moved from consecutive temporaries; recover the missing ones."""
         fnc = self.index.closures.get(norm_closure_ty(head))
+        kids = [f for n, f in self.dump.functions.items()
+                if n.startswith(frame.fn.name + '::{closure#') and n[len(frame.fn.name) + 2:].count('::') == 0
+                and FnIndex._closure_key(f.header, n) == norm_closure_ty(head)]
+        if len(kids) == 1:
+            fnc = kids[0]
         if fnc is None:
             return vals
         idx = [int(x) for x in re.findall(r'\(\*?_1\)?\.(\d+): ', '\n'.join(fnc.lines))]
@@ -700,9 +713,20 @@ class Interp:
         if head.startswith(('{closure@', '{coroutine@', '{async ')):
             key = norm_closure_ty(head)
             if head.startswith('{closure@'):
+                # macro-generated closures (tokio::select!) share one source location: resolve the body among the
+                # children of the creating function
+                if creator is not None:
+                    kids = [f for n, f in self.dump.functions.items()
+                            if n.startswith(creator.name + '::{closure#') and n[len(creator.name) + 2:].count('::') == 0
+                            and FnIndex._closure_key(f.header, n) == key]
+                    if len(kids) > 1 and names:
+                        want = set(names)
+                        kids = [f for f in kids if set(f.parse().upvar_names.values()) == want] or kids
+                    if len(kids) == 1:
+                        return Closure('fn:' + kids[0].name, vals)
                 return Closure(key, vals)
             # coroutine: state 0 (unresumed) with upvars; body = child closure of the creating function
-            body = self.index.coroutine_body(creator, head)
+            body = self.index.coroutine_body(creator, head, names)
             if body is None:
                 raise Unsupported('coroutine body not found for %s created in %s' % (head, creator.name if creator else '?'))
             return Enum('coroutine:' + body.name, 0, {}, vals)
@@ -1010,7 +1034,10 @@ class Interp:
             return r
         if not isinstance(clo, Closure):
             raise Unsupported('call of non-closure %r' % (clo,))
-        fn = self.index.closures.get(clo.loc_text)
+        if clo.loc_text.startswith('fn:'):
+            fn = self.dump.functions.get(clo.loc_text[3:])
+        else:
+            fn = self.index.closures.get(clo.loc_text)
         if fn is None:
             raise Unsupported('closure body not found: ' + clo.loc_text)
         fn.parse()
